@@ -394,3 +394,20 @@ Qed.
 Lemma detect_leak_unfixed_silent : forall t te,
   detect_leak_unfixed t 0 [(te, FdEof)] = (t <=? te).
 Proof. intros. cbn. destruct (t <=? te); reflexivity. Qed.
+
+(* ------------------------------------------------------------------ packaged statements *)
+Lemma final_is_last : forall l d r,
+  describe l = Some d -> last_status l = Some r ->
+  d_last d = (length l - 1)%nat /\ nth (d_last d) l Pass = r.
+Proof.
+  intros l d r Hd Hr. pose proof (describe_last_is_last l d Hd) as H.
+  split; [exact H|]. rewrite H. apply last_status_nth. exact Hr.
+Qed.
+
+Lemma raw_status_roundtrip : forall core,
+  (forall c, c < 256 -> decode_raw (encode_raw (Exited c) core) = Some (Exited c)) /\
+  (forall s, 1 <= s -> s < 127 -> decode_raw (encode_raw (Signaled s) core) = Some (Signaled s)).
+Proof.
+  intro core. split; [intros; apply decode_encode_exited; assumption|
+                      intros; apply decode_encode_signaled; assumption].
+Qed.
